@@ -91,6 +91,8 @@ UNITS = {
   'wo_thr2': dict(wrapper='w_ow_thr.cpp', mode='lcs', unroll=2, cxxflags=['-DWO=1'], devirt=['vp_recvt'], threads={'vp_thr_put': ['a', 'b']}),
   'wo_thr3': dict(wrapper='w_ow_thr.cpp', mode='lcs', unroll=2, cxxflags=['-DWO=1'], devirt=['vp_recvt'], threads={'vp_thr_put': ['a', 'b', 'c']}),
   'lim_thr2': dict(wrapper='w_lim_thr.cpp', mode='lcs', unroll=2, devirt=['vp_recvt'], cut=['prioritize_task', 'spawn_in_graph_arena', 'try_reserve_impl', 'forward_task_bypassINS1_12limiter_node'], threads={'vp_thr_limput': ['a', 'b'], 'vp_thr_limdec': ['a', 'b']}),
+  'lim_pull2': dict(wrapper='w_lim_pull.cpp', mode='lcs', unroll=2, devirt=['vp_recvt', 'vp_sendt'], cut=['spawn_in_graph_arena', 'forward_task_bypassINS1_12limiter_node'],
+                    threads={'vp_thr_fwd': ['a'], 'vp_thr_wreg': ['b'], 'vp_thr_wdec': ['b'], 'vp_thr_wboth': ['b']}),
   'queuenode': dict(wrapper='w_bufnode.cpp', mode='seq', cxxflags=['-DNODEKIND=1'], looporder=True, cut=['prioritize_task'], devirt=True, prune=True, inline_threshold=300, m1ptr=True),
   'itembuf': dict(wrapper='w_itembuf.cpp', mode='seq', cxxflags=[], selftest=True, looporder=True),
 }
@@ -211,6 +213,10 @@ HARNESSES = [
             'at least one racing put accepted when there is room, my_tries == 0, my_future_decrement == 0, my_count == forwarded - decrements at quiescence, nobody blocked, mutex free',
        bounds={'threads': 2, 'free_rounds': 2, 'forced_rounds': 2, 'spin_unroll': 2, 'memory_model': 'SC', 'threshold': '1-2', 'cut': 'prioritize_task, spawn_in_graph_arena, '
                'reservable_predecessor_cache::try_reserve_impl, forwarder task constructor (all proved unreachable in these scenarios: no predecessor)'}),
+  dict(name='limiter_pull_threads', unit='lim_pull2', harness='h_lim_pull.c', cbmc=['--unwind', '12', '--object-bits', '12'], native_cflags=['-fno-sanitize=null'],
+       defines={'memset': 'vp_memset', 'ROUNDS': 2}, tiers=['thorough'], timeout=3000,
+       scenarios=[{'WOP': 0, 'REGP': 1}, {'WOP': 1, 'REGP': 0}, {'WOP': 2, 'REGP': 1}],
+       desc='limiter pull threads', bounds={}),
   dict(name='buffer_node', unit='bufnode', harness='h_bufnode.c', cbmc=['--unwind', '40'] + FS, defines={'KIND': 0},
        scenarios_quick=bufnode_pick(BUF_QUICK, 1, ['0', '1', '2']) + bufnode_pick(BUF_QUICK[:4], 2, ['2', '5']),
        scenarios_thorough=bufnode_scenarios(4, [1, 2], ['0', '1', '2', '5'], 2) + [dict(sc, LEN=5, FROM=6 * sc['FROM']) for sc in bufnode_scenarios(4, [1], ['0', '1', '2', '7'], 1)],
